@@ -1,7 +1,9 @@
 CONSTANTS Ws = {1, 2, 3}  Hs = {1, 2, 3}  SBs = {0, 1, 2}  TABs = {0, 1, 2}  MaxOps = 3
-  Kind = "rec"  Bug = ""  Props = {"C18"}  EmitMode = "sample"  EmitMod = 4
+  Kind = "rec"  Bug = ""  Props = {"C18"}  EmitMode = "sample"  EmitMod = 5
 CONSTANT Bytes <- MCBytes
 CONSTANT CurVals <- MCCurVals
+CONSTANT Chunks <- MCNoChunks
+CONSTANT Cols <- MCCols1
 INIT Init
 NEXT Next
 INVARIANT NoMismatch
